@@ -401,3 +401,48 @@ def r7_runs(ctx: Ctx) -> None:
                        "unconditionally (or the height is not updated / the closed run not emitted): a branch that follows a branch of another non-zero height "
                        "starts where the previous one started, so the rectangles overlap and the module's shape is wrong", lineno=f.node.lineno)
     ctx.require(n >= 4 or bad, f"run-extraction loops not found ({n})")
+
+
+@rule("C15", "R8.cell-membership", "LOOP-COVER",
+      "the occupancy string of a polygon is decided cell by cell with the even-odd inside test: in strop_decomposition every cell of "
+      "the rows x columns grid gets '1' exactly when is_point_inside_polygon(centre of the cell, the given vertices) holds (no "
+      "shortcut that assumes a row of the polygon is one contiguous run)", floor=1)
+def r8_cells(ctx: Ctx) -> None:
+    f = ctx.func(FSUTILS, "strop_decomposition")
+    c = canon_function(f, ctx.model)
+    one, zero = ("k", "str", "1"), ("k", "str", "0")
+
+    def is_inside_test(t):
+        return t[0] == "c" and t[1] == ("g", "is_point_inside_polygon") and len(t[2]) == 2 and t[2][1] == ("p", 0) \
+            and t[2][0][0] == "c" and t[2][0][1] == ("g", "Point")
+    marks = []
+    # the two spellings: a conditional that adds '1' or '0', or one addition of ('1' if inside else '0')
+    for st in atoms_of(c, lambda x: x[0] == "if" and len(x) == 4):
+        adds_one = [y for y in st[2] if y[0] == "aug" and y[1] == "Add" and y[3] == one]
+        adds_zero = [y for y in st[3] if y[0] == "aug" and y[1] == "Add" and y[3] == zero]
+        if adds_one or adds_zero:
+            marks.append(is_inside_test(st[1]) and len(adds_one) == 1 and len(adds_zero) == 1 and len(st[2]) == 1 and len(st[3]) == 1)
+    for st in atoms_of(c, lambda x: x[0] == "aug" and len(x) == 4 and x[1] == "Add" and x[3][0] == "ite"):
+        if {st[3][2], st[3][3]} == {one, zero}:
+            marks.append(is_inside_test(st[3][1]) and st[3][2] == one)
+    # ... and it happens once per cell: inside two nested loops
+    nested = [lp for lp in atoms_of(c, lambda x: x[0] == "for" and len(x) == 5) if atoms_of(lp[3], lambda x: x[0] == "for" and len(x) == 5 and contains(x[3], ("g", "is_point_inside_polygon")))]
+    ctx.site(f.where, "'1' is appended exactly when is_point_inside_polygon(cell centre, vertices) holds, once per cell of the grid", marks=len(marks), nested_loops=len(nested))
+    if marks != [True] or not nested:
+        ctx.report(f.where, "cell-membership", "a cell of the grid is not marked occupied exactly when its centre passes the even-odd inside test against the given "
+                   "vertices: polygons whose rows are not one contiguous run (U, comb, H shapes) get their gaps filled in", lineno=f.node.lineno)
+
+
+def _enclosing(fi, target):
+    out = []
+
+    def rec(node, stack):
+        for ch in ast.iter_child_nodes(node):
+            if ch is target:
+                out.extend(stack)
+                return True
+            if rec(ch, stack + ([ch] if isinstance(ch, (ast.For, ast.While)) else [])):
+                return True
+        return False
+    rec(fi.node, [])
+    return out
